@@ -612,7 +612,7 @@ package dsl
 // are spelled alike (`Point<int>` and `Point<double>` are both named `Point`).
 //@ func GetCommonType
 //@   property C09,C19
-//@   ensures only_primitive_types_are_promoted: result1 == nil && a != b && underlyingA != underlyingB ==> GetPrimitiveType(underlyingA).ok && GetPrimitiveType(underlyingB).ok
+//@   ensures only_primitive_types_are_promoted: result1 == nil && a != b && old(GetUnderlyingType(a)) != old(GetUnderlyingType(b)) ==> old(GetPrimitiveType(GetUnderlyingType(a)).ok) && old(GetPrimitiveType(GetUnderlyingType(b)).ok)
 //@   ensures the_same_type_is_its_own_common_type: a == b ==> result1 == nil && result0 == a
 // Negation is an arithmetic operator: like the binary operators it is defined for integer, floating-point and complex
 // operands only (`-s` on a string, a vector, a bool or a union is an ill-typed computed field: the C++ does not
